@@ -92,3 +92,52 @@ def _gm_contract(clsname):
 
 for _n in ('Parenthesis', 'SquareBrackets', 'Case', 'If', 'For', 'Begin'):
     _gm_contract(_n)
+
+
+# --------------------------------------------------------------------------------- the nine simple passes
+
+def _pass_contract(name, loops=None, raises=(), tlist=None, extra=None, case=None):
+    """call-site obligations of a simple grouping pass: at every group_tokens call 0 <= start <= end < len (so that the
+    proved group_tokens contract applies: Inv and text preserved), and no exception escapes"""
+    q = 'sqlparse.engine.grouping.' + name
+    ns = {'__doc__': _pass_contract.__doc__, 'exec_class': HeapExec, 'params': {'tlist': tlist or make_group},
+          'loops': loops or {}, 'requires': [], 'ensures': [], 'raises': list(raises), 'serves': ['C02', 'C03', 'C07']}
+    ns.update(extra or {})
+    cls = type('pass_' + name, (), ns)
+    REG.add(q, case or 'call sites', cls)
+    return cls
+
+
+_W = {'0': {'bind': bind_elem_or_none('tlist', 'tidx', 'token')}}
+_pass_contract('group_identifier', loops=_W)
+_pass_contract('group_over', loops=_W)
+_pass_contract('group_aliased', loops=_W)
+_pass_contract('group_order', loops=_W)
+_pass_contract('align_comments', loops=_W)
+_pass_contract('group_comments', loops={'0': {
+    'bind': bind_elem_or_none('tlist', 'tidx', 'token'),
+    # established by token_next_by(t=T.Comment): the token at tidx is comment-typed
+    'inv': ['token is None or token.ttype in T.Comment']}})
+_pass_contract('group_values', loops={'0': {
+    'bind': bind_elem_or_none('tlist', 'tidx', 'token'),
+    'inv': ['tidx is None or (start_idx is not None and start_idx <= tidx)',
+            'end_idx == -1 or (start_idx is not None and 0 <= start_idx and start_idx <= end_idx '
+            'and end_idx < len(tlist.tokens))']}})
+_pass_contract('group_functions', loops={'0': {'arbitrary': True}, '1': {'bind': bind_elem_or_none('tlist', 'tidx', 'token')}})
+
+
+def make_plain_group(ex, st):
+    """a group whose class uses the default _groupable_tokens (all children): Statement, Identifier, ... (not the
+    bracket / block classes, whose variant excludes the delimiters and needs the bracket shape B)"""
+    g = make_group(ex, st, 'tlist')
+    W = ex.W
+    sql = W.sql
+    special = [k for k in W.classes if '_groupable_tokens' in vars(k) and k is not sql.TokenList]
+    z = st.objs[g.oid]['CLS']
+    for k in W.classes:
+        if any(issubclass(k, s_) for s_ in special):
+            st.assume(z != W.cls_const[k])
+    return g
+
+
+_pass_contract('group_where', loops=_W, tlist=make_plain_group)
